@@ -101,7 +101,7 @@ impl Drop for Scratch {
 
 /// Build the per-invocation context: shipped data, clean reference start, foreign index, phrase files.
 /// Err(violation text) when a clean start of the tree under test does not even produce a complete index.
-fn setup(o: &Opts, scratch: &Path) -> Result<Ctx, String> {
+fn setup(o: &Opts, scratch: &Path, only_complete_reference: bool) -> Result<Ctx, String> {
     let shipped = shipped::load(&o.repo).unwrap_or_else(|e| harness_fail(&format!("cannot decode shipped data: {e}")));
     if shipped.constants.is_empty() {
         harness_fail("no shipped constants found");
@@ -162,14 +162,25 @@ fn setup(o: &Opts, scratch: &Path) -> Result<Ctx, String> {
         _ => (String::new(), String::new()),
     };
     let complete = matches!(&info.index, dirstate::IndexInfo::Open { shipped: true, .. });
-    if !ok_exit || version.is_empty() || !complete {
-        return Err(format!(
+    let problem = if !ok_exit || version.is_empty() || !complete {
+        Some(format!(
             "a clean first start on an empty data directory ended with {:?} and left metadata {:?} over index {:?}; stderr: {}",
             out.exit,
             info.meta,
             info.index,
             out.stderr.lines().last().unwrap_or("")
-        ));
+        ))
+    } else {
+        None
+    };
+    if let (Some(p), true) = (&problem, only_complete_reference) {
+        return Err(p.clone());
+    }
+    if let Some(p) = &problem {
+        println!("simctl: note: {p} (this is judged by C15; continuing with what the tree builds)");
+    }
+    if !gold.index().is_dir() {
+        let _ = std::fs::create_dir_all(gold.index());
     }
     let gold_index = scratch.join("gold-index");
     dirstate::copy_dir(&gold.index(), &gold_index).unwrap_or_else(|e| harness_fail(&e.to_string()));
@@ -385,6 +396,12 @@ fn absorb(st: &mut Stats, ctx: &Ctx, idx: usize, h: &History, trace: &Trace, vs:
                         }
                     } else if !c.stdout.is_empty() {
                         nontrivial = nontrivial || h.property == "C19";
+                        if c.stdout.lines().filter(|l| !l.starts_with(' ') && !l.is_empty() && !l.starts_with('#') && !l.chars().next().map(|c| c.is_ascii_digit()).unwrap_or(false) || l.chars().next().map(|c| c.is_ascii_digit()).unwrap_or(false) && !l.contains(" │")).count() >= 2 {
+                            *st.probes.entry("cli-printed-several-results".into()).or_default() += 1;
+                        }
+                        if c.stdout.contains("error: ") && c.stdout.lines().any(|l| !l.is_empty() && !l.starts_with("error: ") && !l.starts_with(' ') && !l.contains(" │") && !l.starts_with('#')) {
+                            *st.probes.entry("cli-printed-values-and-diagnostics-in-one-run".into()).or_default() += 1;
+                        }
                         if c.stdout.contains("error: ") {
                             *st.probes.entry("cli-printed-a-diagnostic".into()).or_default() += 1;
                         }
@@ -565,7 +582,7 @@ fn cmd_run(o: &Opts) -> i32 {
     let findings = load_findings(&o.verif);
     println!("simctl: property={prop} tier={} seed={} jobs={} repo={}", o.tier, o.seed, o.jobs, o.repo);
 
-    let ctx = match setup(o, &scratch.0) {
+    let ctx = match setup(o, &scratch.0, prop == "C15") {
         Ok(c) => c,
         Err(why) => {
             if prop == "C15" {
@@ -861,7 +878,7 @@ fn cmd_replay(o: &Opts) -> i32 {
     let clause = v.get("clause").and_then(|c| c.as_str()).unwrap_or("").to_string();
     let scratch_root = std::env::var("TMPDIR").unwrap_or_else(|_| "/tmp".into());
     let scratch = Scratch(PathBuf::from(scratch_root).join(format!("verif-sim-{}", std::process::id())));
-    let ctx = match setup(o, &scratch.0) {
+    let ctx = match setup(o, &scratch.0, h.property == "C15") {
         Ok(c) => c,
         Err(why) => {
             if clause == "C15.clean-start" {
@@ -911,7 +928,7 @@ fn cmd_replay(o: &Opts) -> i32 {
 fn cmd_determinism(o: &Opts) -> i32 {
     let scratch_root = std::env::var("TMPDIR").unwrap_or_else(|_| "/tmp".into());
     let scratch = Scratch(PathBuf::from(scratch_root).join(format!("verif-sim-{}", std::process::id())));
-    let ctx = setup(o, &scratch.0).unwrap_or_else(|e| harness_fail(&e));
+    let ctx = setup(o, &scratch.0, false).unwrap_or_else(|e| harness_fail(&e));
     let n = o.runs.unwrap_or(50);
     let prop = o.prop.as_str();
     let mut hs: Vec<History> = Vec::new();
